@@ -42,6 +42,9 @@ class Sched:
         self.log = []
         self.waiters = {}
         self.fresh_threads = []
+        self.logical = {}
+        self.late = {}
+        self.thread_objs_all = {}
 
     # ------------------------------------------------------------------ hooks called by prims
     def _resuming(self, s):
@@ -181,8 +184,17 @@ class Sched:
         return None
 
     def thread_start(self, vm, s, th):
-        self.ntid += 1
-        tid = self.ntid
+        # logical identity of a thread: (who started it, the how-manyth thread that one started).  The same start
+        # reached at different steps / on different paths is the same scheduler thread (its states carry disjoint
+        # guards and each holds its own thread object).
+        lk = (s.tid, s.nst)
+        s.nst += 1
+        tid = self.logical.get(lk)
+        again = tid is not None
+        if not again:
+            self.ntid += 1
+            tid = self.ntid
+            self.logical[lk] = tid
         g = AND(s.guard, s.cg)
         wset(s, th, "_vt_started", True)
         wset(s, th, "_vt_tid", tid)
@@ -193,17 +205,26 @@ class Sched:
         st = State(g, [fr], tid)
         st.status = "parked"
         st.park = ("begin",)
-        self.threads[tid] = [st]
-        self.thread_obj[tid] = th
-        vm.thread_objs[tid] = th
-        self.names[tid] = str(th.get("name"))
-        self.fresh_threads.append(tid)
+        if again:
+            self.late.setdefault(tid, []).append(st)     # joins the thread's states when the current step is complete
+            self.thread_objs_all[tid].append(th)
+        else:
+            self.threads[tid] = [st]
+            self.thread_obj[tid] = th
+            self.thread_objs_all[tid] = [th]
+            vm.thread_objs[tid] = th
+            self.names[tid] = str(th.get("name"))
+        if tid not in self.fresh_threads:
+            self.fresh_threads.append(tid)
         return None
 
     def _run_prefixes(self):
         """a new thread's code up to its first scheduling point touches nothing another thread can see change
         (it reads its arguments): it is executed right away instead of costing a scheduled step"""
         vm = self.vm
+        for tid, sts in self.late.items():
+            self.threads[tid].extend(sts)
+        self.late = {}
         while self.fresh_threads:
             tid = self.fresh_threads.pop(0)
             out = []
@@ -219,8 +240,7 @@ class Sched:
                     vm.tid = saved[0]
                     for o in res:
                         if o.status in ("done", "raised"):
-                            th = self.thread_obj.get(tid)
-                            if th is not None:
+                            for th in self.thread_objs_all.get(tid, ()):
                                 th.set("_vt_finished", True, o.guard)
                             o.frames = []
                         out.append(o)
@@ -376,8 +396,7 @@ class Sched:
                     outs = vm.run([r], root_guard=run_g)
                     for o in outs:
                         if o.status in ("done", "raised"):
-                            th = self.thread_obj.get(t)
-                            if th is not None:
+                            for th in self.thread_objs_all.get(t, ()):
                                 th.set("_vt_finished", True, o.guard)
                             o.frames = []
                         newloc[t].append(o)
@@ -428,6 +447,8 @@ class Sched:
                 s.cur_exc = vmerge(g, s.cur_exc, o.cur_exc)
                 if s.held != o.held:
                     s.held = tuple(x for x in s.held if x in o.held)
+                if o.nst > s.nst:
+                    s.nst = o.nst
                 if len(s.park) == len(o.park):
                     s.park = tuple(a if a is b else vmerge(g, a, b) for a, b in zip(s.park, o.park))
             s.guard = OR(g, o.guard)
